@@ -463,6 +463,8 @@ VARIANTS = [
          old="const PI: Self = std::f64::consts::PI;", new="const PI: Self = std::f32::consts::PI as f64;"),
     dict(property="C07", name="div-ceil-plus-one", file=SYN, expect="R-C07-exact",
          old="numerator / denominator + usize::from(numerator % denominator != 0)", new="numerator / denominator + 1"),
+    dict(property="C08", name="septic-reads-sample-8", file=FAST, expect="of its window",
+         old="    let h = yvals[7];", new="    let h = yvals[8];"),
 ]
 
 
